@@ -233,6 +233,7 @@ def _value_work(args):
 
 
 def value_check(ck, cases, obs):
+    cases = [c for c in cases if c.get("emit_values")]
     by_case = {}
     for (cid, di), o in obs.items():
         by_case.setdefault(cid, {})[di] = o
@@ -253,7 +254,9 @@ def run(ck):
     cases = jgen.expr_cases(ck.seed * 15485863 + 2, 700 if quick else 12000, depth=3 if quick else 4)
     cases += jgen.expr_cases(ck.seed * 15485863 + 3, 300 if quick else 6000, start_id=len(cases) + 1, depth=3, numeric=True)
     cases += jgen.expr_cases(ck.seed * 15485863 + 4, 60 if quick else 600, start_id=len(cases) + 1, depth=2, collide=True)
-    parser_check(ck, cases)
+    # lazy filters (map / select / reject / selectattr / rejectattr) with the consumers that read them
+    cases += jgen.lazy_cases(ck.seed * 15485863 + 5, 300 if quick else 5000, start_id=len(cases) + 1)
+    parser_check(ck, [c for c in cases if c["tpls"]["main"]["body"][0].get("k") == "out"])
     for bi, batch in enumerate(core.chunks(cases, 3000)):
         obs, r = jrun.spec_results("C02", batch, name=f"b{bi}", timeout=3000)
         ck.add_tlc(r, f"Jinja.tla expressions batch {bi} ({len(batch)} trees x {len(batch[0]['datas'])} data)")
